@@ -27,6 +27,7 @@ import (
 	"mime"
 	"net/http"
 	"net/http/httptest"
+	"runtime"
 	"sort"
 	"strconv"
 	"strings"
@@ -662,7 +663,7 @@ func (Area) Exec(input string) string {
 		st, hs := webbridge.VerifErrorStatus(err)
 		return fmt.Sprintf("%d %s %s %d", int(st.Code()), common.HexS(st.Message()), lettersOf(statusDetails(st)), hs)
 	case "e2e":
-		return execE2E(parseScenario(f))
+		return execIsolated(input) // in a worker subprocess: a runtime fatal error becomes "CRASH …", not a dead harness
 	}
 	return "BADOP"
 }
@@ -726,8 +727,13 @@ func execE2E(sc *scenario) string {
 			res.Header.Del(k)
 		}
 	} else {
+		baseline := runtime.NumGoroutine()
 		w := httptest.NewRecorder()
 		bridge.ServeHTTP(w, req)
+		// goroutines the bridge left behind (withCtx) must be done before the recorder is read
+		if !quiesce(baseline) {
+			return "HANG " + common.HexS("goroutines started by the handler are still running after it returned")
+		}
 		res = w.Result()
 		body, _ = io.ReadAll(res.Body)
 	}
@@ -1053,6 +1059,23 @@ func (Area) Gen(r *rand.Rand, tier string, emit func(string)) {
 			emit(line{rpc: "s", inj: "target", err: sErr(14, "stream broke", "u"), ct: cc.ct, acc: cc.acc, n: n, ra: "sn", rb: "so", md: stdMD}.String())
 			count("e2e.stream")
 		}
+		// UNARY target that sends its response message FIRST and then fails the call: non-OK status in the trailers
+		// (17 codes x detail payloads), a transport error (not a status), a deadline that expires while waiting for
+		// the status. forwardUnaryResponse holds the message back until the second Recv returned, nothing has been
+		// written yet, so this must be rendered as a failure (canonical status + Status body), never as 200.
+		for code := 0; code <= 16; code++ {
+			for _, det := range detailCombos {
+				emit(line{rpc: "u", inj: "target", err: sErr(code, fmt.Sprintf("E%d after the response message", code), det), ct: cc.ct, acc: cc.acc, n: 1, ra: "held back", rb: "never sent", md: stdMD}.String())
+				count("e2e.message-then-status")
+			}
+		}
+		emit(line{rpc: "u", inj: "target", err: "P:" + common.HexS("transport is closing"), ct: cc.ct, acc: cc.acc, n: 1, ra: "held back", rb: "never sent", md: stdMD}.String())
+		emit(line{rpc: "u", inj: "target", err: "W" + common.HexS("recv") + "/" + sErr(14, "connection reset", "-"), ct: cc.ct, acc: cc.acc, n: 1, ra: "held back", rb: "never sent"}.String())
+		for _, tmo := range []string{"1n", "1m"} {
+			emit(line{rpc: "u", inj: "deadline", ct: cc.ct, acc: cc.acc, tmo: tmo, n: 1, ra: "held back", rb: "never sent"}.String())
+			count("e2e.message-then-deadline")
+		}
+		emit(line{rpc: "U", inj: "target", err: sErr(9, "after the message, over tcp", "r"), ct: cc.ct, acc: cc.acc, n: 1, ra: "held back", rb: "never sent", md: stdMD}.String())
 		// server streaming that fails before its first message, all 17 codes x encodable / unencodable details
 		// (for the SSE combination: the status is one plain document in the marshaler's type, not an event)
 		for code := 0; code <= 16; code++ {
